@@ -183,7 +183,7 @@ def rule_k3_operators(prog: Program, col: Collector) -> None:
                 # players may be re-bound from a Game: 2**players - 1
                 ok = x[0] == "bin" and x[1] == "-" and x[3] == ("const", 1) and x[2][0] == "bin" and \
                     ((x[2][1] == "**" and x[2][2] == ("const", 2)) or (x[2][1] == "<<" and x[2][2] == ("const", 1))) and \
-                    (x[2][3] == p or (x[2][3][0] == "phi" and has_subterm(x[2][3], ("attr", p, "number_of_players"))))
+                    (x[2][3] == p or (x[2][3][0] in ("phi", "ifexp") and has_subterm(x[2][3], ("attr", p, "number_of_players"))))
         col.check(ok, ref.where(), ref.short, {"singleton": "player_to_coalition(p) = Coalition(2**p)", "grand": "grand_coalition(n) = Coalition(2**n - 1)"}[want],
                   construct=want, necessity=NEC)
     # from_players: union of distinct singletons
